@@ -25,8 +25,8 @@ KnownKinds == {"commit", "eval", "acc", "apol", "result", "checkin"}
 
 (* the op can be evaluated by the spec on the observed pre-state *)
 Evaluable(s, o) ==
-    /\ o.op \in {"bcommit", "beval", "bacc", "bapol", "post", "reload", "end"}
-    /\ o.op = "reload" => o.s \in Honest
+    /\ o.op \in {"bcommit", "beval", "bacc", "bapol", "post", "reload", "lag", "end"}
+    /\ o.op \in {"reload", "lag"} => o.s \in Honest
     /\ o.op = "post" => (o.s \in Honest /\ Len(s.kp[o.s].outbox) > 0 /\ Head(s.kp[o.s].outbox).k \in KnownKinds)
     /\ o.op \in {"bcommit", "beval", "bacc", "bapol"} => o.s \in K
 
